@@ -240,3 +240,156 @@ def column_advance(prog, rule, unit="ciffile.c"):
                                                              for k2, v in sorted(exp.items()) if v or not k2)))
     return n
 
+
+
+# where a name written by cif_write comes from, and how many characters of its line the validator leaves to the writer
+# (cif_is_valid_name: data names up to CIF_LINE_LENGTH characters, block / frame codes up to CIF_LINE_LENGTH - 5; C09 R8)
+NAME_SOURCES = {"cif_container_get_code": ("block / frame code", 5), "cif_loop_get_names": ("data name", 0)}
+
+
+def _format_options(prog, fn, e, depth=0):
+    """[(format text, guard)] for a u_fprintf format argument: a literal, a conditional of literals (guard = (condition,
+    outcome)), an element of a constant table of strings, or a local with a single such definition."""
+    e = strip(e)
+    if not isinstance(e, dict):
+        return None
+    t = literal_text(e)
+    if t is not None:
+        return [(t, None)]
+    if e.get("k") == "cond":
+        a, b = _format_options(prog, fn, e.get("then"), depth), _format_options(prog, fn, e.get("else"), depth)
+        if a is None or b is None:
+            return None
+        return [(s, (e.get("c"), True) if g is None else g) for s, g in a] + [(s, (e.get("c"), False) if g is None else g) for s, g in b]
+    if e.get("k") == "index":
+        g = prog.globals.get(path(strip(e.get("base"))) or "")
+        if g and g.get("const") and isinstance(g.get("init"), dict):
+            out = [(x.get("v"), None) for x in g["init"].get("elems", []) if x.get("k") == "str"]
+            return out or None
+        return None
+    if e.get("k") == "ref" and depth < 2:
+        defs = _defs_of(fn, e.get("name"))
+        if len(defs) == 1:
+            return _format_options(prog, fn, defs[0], depth + 1)
+    return None
+
+
+def _line_bound(e):
+    """(d) if e is the line length + d"""
+    e = strip(e)
+    if not isinstance(e, dict):
+        return None
+    ms = e.get("ms") or []
+    if "LINE_LENGTH" in ms or "CIF_LINE_LENGTH" in ms:
+        if const(e) is not None or e.get("k") in ("int",):
+            return 0
+    if e.get("k") == "bin" and e.get("op") in ("+", "-"):
+        l, r = _line_bound(e.get("lhs")), const(e.get("rhs"))
+        if l is not None and r is not None and not (set(strip(e.get("rhs")).get("ms") or []) & {"LINE_LENGTH", "CIF_LINE_LENGTH"}):
+            return l + (r if e["op"] == "+" else -r)
+    return None
+
+
+def name_line_budget(prog, rule, unit="ciffile.c"):
+    """A name that the validator accepts may be as long as it allows: a data name CIF_LINE_LENGTH characters, a block or frame
+    code five fewer.  Where cif_write puts such a name on a line together with literal characters of the format (`data_`,
+    an indent), those characters must fit in what the validator left, unless that arm of a conditional format is chosen
+    under a test of the name's length against the line length that makes room for them.  Otherwise the longest valid name
+    is written as an over-length line, which the parser reports when the output is read back."""
+    n = 0
+    for fn in prog.all_functions():
+        if fn.unit != unit:
+            continue
+        sources = {}
+        for (b, i, r, c) in fn.calls():
+            if c.get("callee") in NAME_SOURCES:
+                for a in c.get("args", []):
+                    a = strip(a)
+                    if isinstance(a, dict) and a.get("k") == "un" and a.get("op") == "&":
+                        p = path(strip(a.get("e")))
+                        if p:
+                            sources[p] = NAME_SOURCES[c["callee"]]
+        if not sources:
+            continue
+        for (b, i, r, c) in fn.calls_to("u_fprintf"):
+            args = c.get("args", [])
+            if len(args) < 3:
+                continue
+            opts = _format_options(prog, fn, args[1])
+            if not opts:
+                continue
+            for fmt, guard in opts:
+                pos = 2
+                segs = []          # (segment index, conversion, argument position)
+                seg = 0
+                lit = {0: 0}
+                for m in re.finditer(r"%([-+ #0]*)(\*|\d+)?(?:\.(\*|\d+))?(l|h)?([a-zA-Z%])|([^%])", fmt):
+                    if m.group(6) is not None:
+                        if m.group(6) == "\n":
+                            seg += 1
+                            lit[seg] = 0
+                        else:
+                            lit[seg] += 1
+                        continue
+                    if m.group(5) == "%":
+                        lit[seg] += 1
+                        continue
+                    if m.group(2) == "*":
+                        pos += 1
+                    if m.group(3) == "*":
+                        pos += 1
+                    if m.group(5) == "c":
+                        lit[seg] += 1
+                    segs.append((seg, m.group(5), pos, m.group(3)))
+                    pos += 1
+                for (sg, conv, at, prec) in segs:
+                    if conv != "S" or prec is not None or at >= len(args):
+                        continue
+                    # which name is it?
+                    names = {path(x) for x in walk(args[at]) if isinstance(x, dict) and x.get("k") == "ref" and path(x)}
+                    frontier = set(names)
+                    for _ in range(3):
+                        more = set()
+                        for v in frontier:
+                            for d in _defs_of(fn, v):
+                                more |= {path(x) for x in walk(d) if isinstance(x, dict) and x.get("k") == "ref" and path(x)}
+                        frontier = more - names
+                        names |= more
+                    kinds = {sources[v] for v in names if v in sources}
+                    if len(kinds) != 1:
+                        continue
+                    what, margin = next(iter(kinds))
+                    n += 1
+                    k = lit[sg]
+                    room = margin
+                    why = "the validator leaves %d" % margin
+                    if guard is not None:
+                        cnd, outcome = guard
+                        cs = strip(cnd)
+                        if isinstance(cs, dict) and cs.get("k") == "bin" and cs.get("op") in ("<", "<=", ">", ">="):
+                            for sd, other, flip in (("lhs", "rhs", False), ("rhs", "lhs", True)):
+                                e = strip(cs.get(sd))
+                                if isinstance(e, dict) and e.get("k") == "call" and e.get("callee") in ("u_strlen", "u_countChar32") \
+                                        and e.get("args") and any(path(x) in names for x in walk(e["args"][0]) if isinstance(x, dict)):
+                                    d = _line_bound(cs.get(other))
+                                    op = cs["op"]
+                                    if flip:
+                                        op = {"<": ">", ">": "<", "<=": ">=", ">=": "<="}[op]
+                                    if not outcome:
+                                        op = {"<": ">=", ">": "<=", "<=": ">", ">=": "<"}[op]
+                                    if d is not None and op in ("<", "<="):
+                                        # on this arm: length <= line length + d (- 1 for `<`)
+                                        g_room = -(d - (1 if op == "<" else 0))
+                                        if g_room > room:
+                                            room = g_room
+                                            why = "this arm is taken only for names at least %d shorter than the line" % g_room
+                    key = "%s:L%s:%s" % (fn.name, c.get("l"), fmt.replace("\n", "\\n"))
+                    if k <= room:
+                        rule.ok(key, "%d literal character(s) on the line of a %s; %s" % (k, what, why))
+                    else:
+                        rule.violation(fn.file, fn.name, c.get("l"), "name-line-over-budget:%s:%s" % (fn.name, fmt.replace("\n", "\\n")),
+                                       "the format `%s` puts %d literal character(s) on the line of a %s, which may be as long as the "
+                                       "line length%s allows: the longest valid name is written as a line of %d characters over the "
+                                       "limit, reported as over-length when the output is parsed"
+                                       % (fmt.replace("\n", "\\n"), k, what, "" if not margin else " - %d" % margin, k - room))
+    return n
